@@ -40,7 +40,7 @@ NSeeds == IF IsM("s2") THEN (IF Thorough THEN 1200 ELSE 140)
 (***************************************************************************)
 S2Cells2 == << Tri2(5, 0, 7), Tri2(7, 2, 5), Tri2(9, 0 - 3, 7), Tri2(4, 0, 6) >>
 S2Cells3 == << Tri3(5, 7, 5, 0, 0, 0), Tri3(7, 5, 7, 2, 0 - 1, 3), Tri3(4, 4, 6, 0, 0, 0) >>
-Widths   == << <<1, 10>>, <<1, 5>>, <<3, 10>>, <<1, 2>>, <<1, 20>>, <<1, 50>>, <<3, 20>> >>
+Widths   == << <<1, 10>>, <<1, 5>>, <<3, 10>>, <<1, 2>>, <<1, 20>>, <<1, 50>>, <<3, 20>>, <<1, 1>>, <<2, 5>> >>
 Deltas   == << <<1, 10>>, <<1, 5>>, <<1, 4>>, <<1, 2>>, <<3, 10>> >>
 S2Scope ==
   { LET d  == 2 + (seed % 2)
@@ -50,11 +50,19 @@ S2Scope ==
         T  == 1 + ((Hh(seed, 1, 3) % 4) \div 3)
         dl == Pick(seed, 8, Deltas)
     IN  [id |-> seed, d |-> d, H |-> H, ppp |-> MaskBits(Hh(seed, 4, 4), d), S |-> Pick(seed, 5, <<1, 2>>),
-         fr |-> [f \in 1..T |-> [i \in 1..n |-> [k \in 1..d |-> Rnd(seed, 40 * f + i, k, 0 - 2, 2 * H[k][k] + 2)]]],
+         fr |-> [f \in 1..T |-> [i \in 1..n |-> [k \in 1..d |-> Rnd(seed, 40 * f + i, k, 0 - 1, H[k][k] + 1)]]],
          types |-> [i \in 1..n |-> IF i <= K THEN i ELSE Rnd(seed, 30, i, 1, K)],
          sig |-> [a \in 1..K |-> [b \in 1..K |-> Pick(seed + 3 * a + 11 * b, 6, Widths)]],
          rn |-> dl[1], rd |-> dl[2], nd |-> Rnd(seed, 9, 9, 4, IF d = 2 THEN 18 ELSE 12),
          savegr |-> ((Hh(seed, 2, 2) % 3) = 0)] : seed \in 1..NSeeds }
+\* dyadic family with neighbours exactly at r_max = rdelta (2 nd - 1) / 2 = 7/4 (S = 4: d2 = 49):
+\* the comparison is strict, such a neighbour does not contribute
+S2EdgeScope ==
+  { [id |-> 0, d |-> 2, H |-> Tri2(32, 0, 32), ppp |-> p, S |-> 4,
+     fr |-> << << <<4, 4>>, <<11, 4>>, <<4, 11>>, q, <<4 + 32, 4 - 3>> >> >>,
+     types |-> <<1, 1, 2, 1, 2>>, sig |-> << <<w, <<1, 4>>>>, <<<<1, 2>>, w>> >>,
+     rn |-> 1, rd |-> 2, nd |-> 4, savegr |-> FALSE] :
+       p \in {<<1, 1>>, <<0, 0>>}, w \in {<<1, 4>>, <<1, 8>>}, q \in {<<7, 8>>, <<8, 8>>, <<10, 4>>} }
 \* the single-frame view of frame f (the operators of LocalOrder take one configuration)
 S2P(f) == [d |-> c.d, H |-> c.H, ppp |-> c.ppp, S |-> c.S, pos |-> c.fr[f], types |-> c.types, sig |-> c.sig,
            rn |-> c.rn, rd |-> c.rd, nd |-> c.nd]
@@ -138,7 +146,7 @@ GyrScope ==
 GyCloud == IF c.kind = "rot" THEN GyRotate(c.base, c.Rn) ELSE c.base
 GyScale == c.S * c.rden
 
-Scope == IF IsM("s2") THEN S2Scope ELSE IF IsM("tetra") THEN TetraScope
+Scope == IF IsM("s2") THEN S2Scope \cup S2EdgeScope ELSE IF IsM("tetra") THEN TetraScope
          ELSE IF IsM("nematic") THEN NemScope ELSE {x \in GyrScope : Len(x.base) >= 2 /\ GyTr(GyNum(x.base)) > 0}
 
 Key(x) == x.id + (IF IsM("tetra") THEN x.pos[1][1] + x.S + x.H[1][1] + Len(x.pos) + x.ppp[1] + x.pos[2][2] ELSE 0)
@@ -153,6 +161,9 @@ Spec == Init /\ [][Next]_vars
 InvS2ContribExact     == IsM("s2") => \A f \in 1..Len(c.fr) : S2ContribExact(S2P(f))
 InvS2ContribSymmetric == IsM("s2") => \A f \in 1..Len(c.fr) : S2ContribSymmetric(S2P(f))
 InvS2ClassConsistent  == IsM("s2") => \A f \in 1..Len(c.fr) : S2ClassConsistent(S2P(f))
+\* the edge family really has neighbours exactly at r_max, decided sharply (not as ties)
+InvS2EdgeFamily == (IsM("s2") /\ c.id = 0) => /\ S2HasSharpEdge(S2P(1), 1) /\ ~S2Tie(S2P(1), 1)
+                                              /\ 2 \notin Range(S2Contrib(S2P(1), 1)) /\ 3 \notin Range(S2Contrib(S2P(1), 1))
 
 TeRT == TeTable(c.H, c.ppp, c.pos)
 TeTT == TeTieTable(c.H, c.ppp, c.pos)
@@ -186,6 +197,7 @@ CaseS2 ==
     sig |-> c.sig, rn |-> c.rn, rd |-> c.rd, nd |-> c.nd, savegr |-> c.savegr,
     contrib |-> [f \in 1..Len(c.fr) |-> [i \in 1..Len(c.types) |-> S2Contrib(S2P(f), i)]],
     tie     |-> [f \in 1..Len(c.fr) |-> [i \in 1..Len(c.types) |-> S2Tie(S2P(f), i)]],
+    edge    |-> [f \in 1..Len(c.fr) |-> [i \in 1..Len(c.types) |-> S2HasSharpEdge(S2P(f), i)]],
     cls     |-> [f \in 1..Len(c.fr) |-> [i \in 1..Len(c.types) |-> S2Class(S2P(f), i)]],
     s2      |-> [f \in 1..Len(c.fr) |-> [i \in 1..Len(c.types) |-> S2Term(S2P(f), i)]],
     rbins   |-> [k \in 1..c.nd |-> S2RBin(S2P(1), k)],
